@@ -2,7 +2,7 @@
    the expression, one case per typing rule of Check.tc), hence `xeval n` is sound for every fuel n. *)
 From Coq Require Import List ZArith NArith Bool Lia.
 From Mimium Require Import Lmmm.Syntax Lmmm.Ref Lmmx.Syntax Lmmx.Ref.
-From Mimium Require Import Lmmt.Types Lmmt.Check Lmmt.Typing Lmmt.SoundBind Lmmt.SoundStep.
+From Mimium Require Import Lmmt.Types Lmmt.Check Lmmt.Typing Lmmt.SoundBind Lmmt.SoundStep Lmmt.SoundMatch.
 Import ListNotations.
 
 Section Eval.
@@ -46,15 +46,15 @@ Section Eval.
     - (* XSr *) inversion Htc; subst. apply post_now; auto.
     - (* XSelf *) inversion Htc; subst. apply post_now; auto.
     - (* XBin *)
-      destruct (tc an G e1) as [[| | | |]|] eqn:E1; try discriminate.
-      destruct (tc an G e2) as [[| | | |]|] eqn:E2; try discriminate. inversion Htc; subst.
+      destruct (tc an G e1) as [[| | | | |]|] eqn:E1; try discriminate.
+      destruct (tc an G e2) as [[| | | | |]|] eqn:E2; try discriminate. inversion Htc; subst.
       sub_num E1.
       eapply res_ok_bind; [eapply Hrec; [exact E2|envmono|eauto]|].
       intros [[vb kb] w2] (SV2 & SC2 & X2 & Y2 & Hw2 & Hv2).
       apply vtyp_num_inv in Hv1. destruct Hv1 as (za & ->). apply vtyp_num_inv in Hv2. destruct Hv2 as (zb & ->). cbn.
       exists SV2, SC2. split4; auto; try (eapply ext_trans; eauto); try exact I.
     - (* XNeg *)
-      destruct (tc an G e) as [[| | | |]|] eqn:E1; try discriminate. inversion Htc; subst.
+      destruct (tc an G e) as [[| | | | |]|] eqn:E1; try discriminate. inversion Htc; subst.
       sub_num E1. apply vtyp_num_inv in Hv1. destruct Hv1 as (za & ->). cbn.
       exists SV1, SC1. split4; auto; try exact I.
     - (* XLet *)
@@ -69,7 +69,7 @@ Section Eval.
       intros [[vb kb] w3] (SV3 & SC3 & X3 & Y3 & Hw3 & Hv3). cbn.
       exists SV3, SC3. split4; auto; repeat (eapply ext_trans; eauto).
     - (* XIf *)
-      destruct (tc an G e1) as [[| | | |]|] eqn:E1; try discriminate.
+      destruct (tc an G e1) as [[| | | | |]|] eqn:E1; try discriminate.
       destruct (tc an G e2) as [t2|] eqn:E2; try discriminate.
       destruct (tc an G e3) as [t3|] eqn:E3; try discriminate.
       destruct (an_teq an t2 t3) eqn:Eq; try discriminate. apply (proj1 Hcf) in Eq. inversion Htc; subst.
@@ -83,12 +83,12 @@ Section Eval.
         intros [[v2 k2] w2] (SV2 & SC2 & X2 & Y2 & Hw2 & Hv2). cbn.
         exists SV2, SC2. split4; auto; eapply ext_trans; eauto.
     - (* XMem *)
-      destruct (tc an G e) as [[| | | |]|] eqn:E1; try discriminate. inversion Htc; subst.
+      destruct (tc an G e) as [[| | | | |]|] eqn:E1; try discriminate. inversion Htc; subst.
       sub_num E1. apply vtyp_num_inv in Hv1. destruct Hv1 as (za & ->). cbn.
       exists SV1, SC1. split4; auto; try exact I.
     - (* XDelay *)
-      destruct (tc an G e1) as [[| | | |]|] eqn:E1; try discriminate.
-      destruct (tc an G e2) as [[| | | |]|] eqn:E2; try discriminate. inversion Htc; subst.
+      destruct (tc an G e1) as [[| | | | |]|] eqn:E1; try discriminate.
+      destruct (tc an G e2) as [[| | | | |]|] eqn:E2; try discriminate. inversion Htc; subst.
       sub_num E1.
       eapply res_ok_bind; [eapply Hrec; [exact E2|envmono|eauto]|].
       intros [[vb kb] w2] (SV2 & SC2 & X2 & Y2 & Hw2 & Hv2).
@@ -100,7 +100,7 @@ Section Eval.
       intros [[vs ks] w1] (SV1 & SC1 & X1 & Y1 & Hw1 & Hv1). cbn.
       exists SV1, SC1. split4; auto. apply vtyp_tup. exact Hv1.
     - (* XProj *)
-      destruct (tc an G e) as [[| |ts| |]|] eqn:E1; try discriminate.
+      destruct (tc an G e) as [[| |ts| | |]|] eqn:E1; try discriminate.
       eapply res_ok_bind; [eapply Hrec; [exact E1|eauto|eauto]|].
       intros [[v k] w1] (SV1 & SC1 & X1 & Y1 & Hw1 & Hv1).
       apply vtyp_tup_inv in Hv1. destruct Hv1 as (vs & -> & Hvs).
@@ -113,7 +113,7 @@ Section Eval.
       intros [[vs ks] w1] (SV1 & SC1 & X1 & Y1 & Hw1 & Hv1). cbn.
       exists SV1, SC1. split4; auto. apply vtyp_rec. exact Hv1.
     - (* XField *)
-      destruct (tc an G e) as [[| | |fts|]|] eqn:E1; try discriminate.
+      destruct (tc an G e) as [[| | |fts| |]|] eqn:E1; try discriminate.
       eapply res_ok_bind; [eapply Hrec; [exact E1|eauto|eauto]|].
       intros [[v k] w1] (SV1 & SC1 & X1 & Y1 & Hw1 & Hv1).
       apply vtyp_rec_inv in Hv1. destruct Hv1 as (fvs & -> & Hvs).
@@ -130,7 +130,7 @@ Section Eval.
       exists SV, (SC ++ [TFn (map (an_ty an) ps) rt]). split4; auto with lmmt.
       rewrite nth_error_app2, Nat.sub_diag; auto.
     - (* XApp *)
-      destruct (tc an G e) as [[| | | |pts rt]|] eqn:E1; try discriminate.
+      destruct (tc an G e) as [[| | | |pts rt|]|] eqn:E1; try discriminate.
       destruct (omap (fun x => tc an G x) args) as [ats|] eqn:E2; try discriminate.
       destruct (an_tseq an ats pts) eqn:Eq; try discriminate. apply (proj1 (proj2 Hcf)) in Eq. inversion Htc; subst.
       eapply apply_x_sound; eauto.
@@ -151,7 +151,7 @@ Section Eval.
       intros [[v ki] w3] (SV3 & SC3 & X3 & Y3 & Hw3 & Hv3). cbn.
       exists SV3, SC3. split4; auto; repeat (eapply ext_trans; eauto).
     - (* XPipe *)
-      destruct (tc an G e2) as [[| | | |pts rt]|] eqn:E1; try discriminate.
+      destruct (tc an G e2) as [[| | | |pts rt|]|] eqn:E1; try discriminate.
       destruct (tc an G e1) as [ta|] eqn:E2; try discriminate.
       destruct (an_tseq an [ta] pts) eqn:Eq; try discriminate. apply (proj1 (proj2 Hcf)) in Eq. inversion Htc; subst.
       eapply apply_x_sound; eauto. cbn. rewrite E2. reflexivity.
@@ -178,9 +178,47 @@ Section Eval.
       eapply res_ok_bind; [eapply Hrec; [exact Htc|envmono|eauto]|].
       intros [[vb kb] w2] (SV2 & SC2 & X2 & Y2 & Hw2 & Hv2). cbn.
       exists SV2, SC2. split4; auto; eapply ext_trans; eauto.
-    - discriminate.
-    - discriminate.
-    - discriminate.
+    - (* XSelfS *)
+      destruct (shape_ok (an_sums an) sh) eqn:Es; try discriminate. inversion Htc; subst. cbn.
+      exists SV, SC. split4; auto with lmmt. eapply dec_typed; eauto.
+    - (* XCon *)
+      destruct (rlookup tn (an_sums an)) as [cs|] eqn:El; try discriminate.
+      destruct (nth_error cs tag) as [[t'|]|] eqn:En; destruct arg as [a|]; try discriminate.
+      + destruct (tc an G a) as [ta|] eqn:E1; try discriminate.
+        destruct (an_teq an t' ta) eqn:Eq; try discriminate. apply (proj1 Hcf) in Eq. inversion Htc; subst.
+        eapply res_ok_bind; [eapply Hrec; [exact E1|eauto|eauto]|].
+        intros [[v k] w1] (SV1 & SC1 & X1 & Y1 & Hw1 & Hv1).
+        assert (Hvt : vtyp SC1 (TSum tn cs) (VCon tag v)) by (apply (proj2 (vtyp_sum SC1 tn cs tag v)); exists (Some ta); split; auto).
+        cbn [rbind post extends]. exists SV1, SC1. split4; auto.
+      + inversion Htc; subst.
+        assert (Hvt : vtyp SC (TSum tn cs) (VCon tag VUnit)) by (apply (proj2 (vtyp_sum SC tn cs tag VUnit)); exists None; split; auto; reflexivity).
+        cbn [post extends]. exists SV, SC. split4; auto with lmmt.
+    - (* XMatch *)
+      destruct (tc an G e) as [ts|] eqn:E1; try discriminate.
+      change (match tc_arms an false G ts arms with
+              | Some (t0 :: tl) => if forallb (an_teq an t0) tl && exhaustive ts (map fst arms) then Some t0 else None
+              | _ => None
+              end = Some t) in Htc.
+      destruct (tc_arms an false G ts arms) as [[|t0 tl]|] eqn:Ea; try discriminate.
+      destruct (forallb (an_teq an t0) tl && exhaustive ts (map fst arms)) eqn:Ec; try discriminate. inversion Htc; subst t0.
+      apply andb_true_iff in Ec. destruct Ec as [Eall Eex].
+      eapply res_ok_bind; [eapply Hrec; [exact E1|eauto|eauto]|].
+      intros [[v k0] w1] (SV1 & SC1 & X1 & Y1 & Hw1 & Hv1).
+      destruct (find_arm_typed an G ts arms (t :: tl) SC1 v Ea Eex Hv1) as (i & m & body & Ef & En & Et).
+      rewrite Ef. cbn [rbind].
+      (* the arm found is typed, its body has type t *)
+      pose proof (tc_arms_inv an false G ts arms _ Ea) as Harms.
+      destruct (Forall2_nth_l _ _ _ _ _ _ _ Harms En) as (tb & Etb & G' & Ep & Eb). cbn [fst snd] in Ep, Eb.
+      assert (Htb : tb = t).
+      { destruct i as [|i]; cbn in Etb; [inversion Etb; reflexivity|].
+        rewrite forallb_forall in Eall. symmetry. apply (proj1 Hcf). apply Eall. eapply nth_error_In; eauto. }
+      subst tb.
+      assert (He1 : env_ok SV1 sigs G r) by envmono.
+      destruct (mbind_sound an ft sigs m ts G G' Ep v r w1 SV1 SC1 Hv1 Et He1 Hw1) as (r' & w2 & SV2 & Em & X2 & Hw2 & He2).
+      rewrite Em. cbn [rbind].
+      eapply res_ok_bind; [eapply Hrec; [exact Eb|eauto|eauto]|].
+      intros [[vb kb] w3] (SV3 & SC3 & X3 & Y3 & Hw3 & Hv3). cbn.
+      exists SV3, SC3. split4; auto; repeat (eapply ext_trans; eauto).
   Qed.
 End Eval.
 
